@@ -7,7 +7,7 @@ GROUPS = {
           [('get_valid_classes_is_model', 'get_valid_classes_eq'), ('get_valid_classes_refuses', 'get_valid_classes_refuses'),
            ('get_multiplicity_is_model', 'get_multiplicity_eq'), ('get_meta_index_is_model', 'get_meta_index_eq'),
            ('is_constant_is_model', 'is_constant_eq'), ('is_repeating_is_model', 'is_repeating_eq'),
-           ('get_const_period_is_model', 'get_const_period_eq'), ('meta_valid_is_model', 'meta_valid_eq'), ('check_valid_is_model', 'check_valid_eq')]),
+           ('get_const_period_is_model', 'get_const_period_eq'), ('meta_valid_is_model', 'meta_valid_eq'), ('check_valid_is_model', 'check_valid_eq'), ('subset_shape_is_model', 'subset_shape_eq'), ('merge_shape_is_model', 'merge_shape_eq')]),
  'Stack': ('CodeStack', 'codeMissingStack', 'dcmstack.py',
            [('file_idx_is_model', 'file_idx_eq'), ('file_idx_volume_is_model', 'file_idx_volume_eq'),
             ('get_shape_counts_is_model', 'get_shape_counts_eq'), ('accept_is_counts_and_order', 'acceptB_counts'),
